@@ -116,7 +116,8 @@ Reported(tag) == \E i \in 1..Len(stages) : stages[i].tag = tag
 ExpectedTags == IF FailAt < 0 THEN SetOf(Tags) ELSE {Tags[i] : i \in 1..FailAt}
 AllStarted == FailAt < 0 /\ \A i \in 1..N : Reported(Tags[i])
 
-Fd(tag, fd) == StageOf(tag).fds[fd]
+\* (a descriptor the command does not have at all reads as an object that is nobody's)
+Fd(tag, fd) == IF fd \in DOMAIN StageOf(tag).fds THEN StageOf(tag).fds[fd] ELSE [ino |-> -1, acc |-> -1, pos |-> 0, cx |-> FALSE]
 HasFd(tag, fd) == fd \in DOMAIN StageOf(tag).fds
 
 \* stage i's stdout and stage i+1's stdin are the two ends of one pipe made by the library
